@@ -881,10 +881,13 @@ def sanitize(t, shares):
 
 def make_case(cid, t1, t2, shares, family, hide, head=False, hshape="list"):
     """hshape: how the clause of the head configurations receives the variables: "list" --
-    c10h([V0,..,V5,_,_], t2), "struct" -- c10h(v(V0,..,V5,_,_), t2).  The compiler emits the head's
-    sub-terms level by level, so with "list" the nested cells of the variable list are interleaved
-    with (and, for shallow t2, come after) the instructions of t2, ending in a read-mode
-    unify_constant([]); with "struct" the instructions of t2 are the last ones before proceed."""
+    c10h([V0,..,V5,_,_], t2), "struct" -- c10h(v(V0,..,V5,_,_), t2), "args" --
+    c10h(V0,..,V5,_,_, t2).  The compiler emits the head's sub-terms level by level, so with "list"
+    the nested cells of the variable list are interleaved with (and, for shallow t2, come after)
+    the instructions of t2, ending in a read-mode unify_constant([]); with "struct" and "args" the
+    instructions of t2 are the last ones before proceed.  With "struct"/"list" a variable of t2 is
+    first seen inside a structure (unify_variable, later unify_value); with "args" it is first seen
+    as a bare argument (get_variable, later unify_local_value inside t2)."""
     rd = Render(shares)
     p1, p2 = rd.pl(t1), rd.pl(t2)
     allv = VARS + BYS
@@ -896,7 +899,8 @@ def make_case(cid, t1, t2, shares, family, hide, head=False, hshape="list"):
         ex = cons(('v', v), ex)
     head = head and not has_rat(e2)
     configs = CONFIGS + (HEAD_CONFIGS if head else [])
-    hgoal = ("c10h_%s(v(%s), T1)" if hshape == "struct" else "c10h_%s([%s], T1)") % (cid, ",".join(allv))
+    hgoal = {"struct": "c10h_%s(v(%s), T1)", "args": "c10h_%s(%s, T1)", "list": "c10h_%s([%s], T1)"}[hshape] % (
+        cid, ",".join(allv))
     body = "".join(config_text(k, pred, flag,
                                not (hide and flag == "false" and pred in ("eq", "head")) and not (hide == "all" and pred != "neq"),
                                hgoal if pred == "head" else None)
@@ -907,8 +911,9 @@ def make_case(cid, t1, t2, shares, family, hide, head=False, hshape="list"):
     if head:
         # compiled head unification: the clause head carries t2 and the variable list, so that the
         # clause's variables are identified with the query's before t2 meets T1
-        impl.append(("L\t%s_ld\tuser\tc10h_%s(v(%s,_,_), %s)." if hshape == "struct" else
-                     "L\t%s_ld\tuser\tc10h_%s([%s,_,_], %s).") % (cid, cid, ",".join(VARS), plain_pl(e2)))
+        impl.append({"struct": "L\t%s_ld\tuser\tc10h_%s(v(%s,_,_), %s).",
+                     "args": "L\t%s_ld\tuser\tc10h_%s(%s,_,_, %s).",
+                     "list": "L\t%s_ld\tuser\tc10h_%s([%s,_,_], %s)."}[hshape] % (cid, cid, ",".join(VARS), plain_pl(e2)))
     impl.append("Q\t%s\t2\t%s" % (cid, q))
     model = ["unify\t%s\t%s\t%s\t%s" % (cid, canon(e1), canon(e2), canon(ex))]
     return {"id": cid, "family": family, "t1": canon(e1), "t2": canon(e2), "extra": canon(ex),
@@ -1125,7 +1130,7 @@ def directed_cases():
 def write_mode_pairs():
     """(name, t1, t2): the head t2 has a compound that is WRITTEN (t1 has a variable there) and that
     contains this variable again, directly or through an alias; plus near misses with a finite
-    unifier.  Stored as corpus/C10/w_<name>.json (python3 -m vlib.props.C10 write-corpus) and run
+    unifier.  Stored as corpus/C10/w_<name>.json and a_<name>.json (python3 -m vlib.props.C10 write-corpus) and run
     as directed pairs too."""
     V = lambda n: ('v', n)
     s = lambda f, *a: ('s', f, list(a))
@@ -1156,10 +1161,14 @@ def write_corpus():
     os.makedirs(d, exist_ok=True)
     for name, t1, t2 in write_mode_pairs():
         cyc = not name.startswith("near_miss")
-        c = make_case("kw_%s" % name, t1, t2, {}, "corpus-write-mode", "cyclic" if cyc else False, True, "struct")
-        with open(os.path.join(d, "w_%s.json" % name), "w") as f:
-            json.dump({"case": c, "note": "head unification in write mode, finding C10-2"}, f, indent=1)
-            f.write("\n")
+        for pre, hshape in (("w", "struct"), ("a", "args")):
+            c = make_case("k%s_%s" % (pre, name), t1, t2, {}, "corpus-write-mode", "cyclic" if cyc else False, True,
+                          hshape)
+            with open(os.path.join(d, "%s_%s.json" % (pre, name)), "w") as f:
+                json.dump({"case": c, "note": "head unification in write mode (variables passed %s), finding C10-2" % (
+                    "inside v(...): unify_value" if hshape == "struct" else "as arguments: unify_local_value")},
+                          f, indent=1)
+                f.write("\n")
 
 
 def run(ctx):
@@ -1179,8 +1188,9 @@ def run(ctx):
         heads = [i < ndir or rng.random() < 0.3 or pairs[i][3] == "tailshare" for i in range(len(pairs))]
         # directed pairs: both shapes alternately (the write-mode pairs at the end: "struct");
         # tailshare: mostly "struct"; others: either
-        hsh = ["struct" if (i < ndir and (i % 2 == 0 or i >= ndir - len(write_mode_pairs()))) else "list" if i < ndir
-               else ("struct" if rng.random() < (0.85 if pairs[i][3] == "tailshare" else 0.5) else "list")
+        hsh = [("args" if i >= ndir - len(write_mode_pairs()) else ("struct", "args", "list")[i % 3]) if i < ndir
+               else rng.choice(("struct", "args", "list") if pairs[i][3] != "tailshare" else
+                               ("struct",) * 9 + ("args",) * 9 + ("list",) * 2)
                for i in range(len(pairs))]
         pre = [make_case("c%d" % i, t1, t2, sh, fam, False, heads[i], hsh[i]) for i, (t1, t2, sh, fam) in enumerate(pairs)]
         mres = core.run_model([l for c in pre for l in c["model"]])
@@ -1194,7 +1204,11 @@ def run(ctx):
     retried = 0
     for c in cases:
         r = impl.get(c["id"])
-        if r is None or r.startswith("timeout") or r.startswith("abort") or r.startswith("skipped"):
+        if r is None or r.startswith("timeout") or r.startswith("abort") or r.startswith("skipped") or \
+                "interrupt_thrown" in r or re.match(r"exception\([A-Z_][A-Za-z0-9_]*\)", r):
+            # (the watchdog's interrupt is thrown as error('$interrupt_thrown', _), which the case's own
+            # catch/3 can intercept; repeated interrupts on a loaded machine were seen to end a case with
+            # `exception(E)`, E unbound)
             retried += 1
             impl.update(core.run_impl(c["impl"], env={"SV_TIMEOUT_MS": "120000"}))
     findings = []
